@@ -40,12 +40,14 @@ def get_angle_spec_from_float(angle: float, tol: float = 1e-4) -> List[Tuple[int
     """
     angle %= 2 * np.pi
     rest = angle / np.pi
+    # `rest` is in units of pi while `tol` is given in radians
+    tol_pi = tol / np.pi
 
     # Max value of `n`
     n_max = 2**IMMEDIATE_BITS - 1
 
     nds = []
-    while rest > tol:
+    while rest > tol_pi:
         # Find the largest `d` such that `rest <= n_max / 2 ^ d`
         d = int(np.floor(np.log2(n_max / rest)))
         # Find largest `n` such that `rest >= n / 2 ^ d`
